@@ -247,34 +247,96 @@ def rules(chk, P, prefix="C13.R7"):
     chk.ob("%s:key-flag" % prefix, "in_map_key is raised for exactly the extent of a map key", key_flag)
 
 
+def _stream_tokens(b, path):
+    """ordered tokens of a block path: calls of sval::Stream methods, and any other call that is handed the stream (a value is written through it)"""
+    roots = set()
+    for c in b.calls(normal_only=True):
+        if "sval::stream::Stream" in (c.callee.get("trait") or "") and c.args:
+            for r in common.roots(b.origin(c.args[0], through_calls=("deref_mut", "deref"))):
+                if r[0] in ("param", "capture"):
+                    roots.add(r)
+    t = []
+    for bb in path:
+        tm = b.blocks[bb]["term"]
+        if tm["k"] != "call":
+            continue
+        c = mir.CallSite(b, bb, tm)
+        if not c.args:
+            continue
+        if "sval::stream::Stream" in (c.callee.get("trait") or ""):
+            t.append((c.callee.get("name"), _label_of(b, c, None), c))
+            continue
+        nm = c.callee.get("name") or ""
+        if nm in ("branch", "from_residual", "deref", "deref_mut", "drop", "from_output", "into_iter", "next", "as_ref", "as_mut"):
+            continue
+        for a in c.args:
+            if roots & {r for r in common.roots(b.origin(a, through_calls=("deref_mut", "deref"))) if r[0] in ("param", "capture")}:
+                t.append(("<value:%s>" % nm, None, c))
+                break
+    return t
+
+
+def _success_subpaths(b, start, end, allowed):
+    """block paths start -> end inside `allowed` on which every `?` continues"""
+    out = []
+    for path in b.acyclic_paths(start, end, limit=300):
+        if any(x not in allowed for x in path):
+            continue
+        ok = True
+        for i, bb in enumerate(path[:-1]):
+            t = b.blocks[bb]["term"]
+            if t["k"] == "switch":
+                so = b.switch_origin(bb)
+                if so[0] == "discr" and mir.o_is_call(so[1], name="branch"):
+                    vals = [str(v) for v, n in t["targets"] if n == path[i + 1]]
+                    if "0" not in vals:
+                        ok = False
+                        break
+        if ok:
+            out.append(path)
+    return out
+
+
+ELEMENT_FRAMES = ("seq_value", "record_tuple_value", "record_value", "map_key", "map_value", "tagged", "tuple_value")
+
+
+def _empty_frame(toks):
+    for i in range(len(toks) - 1):
+        n0, n1 = toks[i][0], toks[i + 1][0]
+        if n0.endswith("_begin") and n1.endswith("_end") and n0[:-6] == n1[:-4] and n0[:-6] in ELEMENT_FRAMES:
+            return "`%s` at %s is closed at once: the element / field it announces has no value" % (n0, toks[i][2].loc)
+    return None
+
+
 def values_balanced(chk, P, key="C13.R7:values-balanced"):
-    """Every `sval::Value::stream` / `ValueRef::stream_ref` of the OTLP data code - derived or written by hand - opens and closes its frames
-    well-nested, under matching (label, index), along every success path (loop bodies are entered at most once by a path)."""
+    """Every function of the OTLP data code and of the file writer that writes sval frames - `Value::stream` impls, derived or by hand, and the
+    helpers they share (`stream_field`, `stream_attributes`, `stream_encoded_scope_items`, the attribute stream, the file record) - opens and
+    closes its frames well-nested under matching (label, index), along every success path and along every iteration of every loop, and writes
+    a value inside each element / field frame it opens."""
     def f():
         vals = _label_values()
         n = 0
         for k, b in sorted(P.bodies.items()):
-            if b.crate != "emit_otlp" or b.is_closure or "generated" in b.file:
+            if b.crate not in ("emit_otlp", "emit_file") or "generated" in b.file or "::tests::" in k:
                 continue
-            if b.method not in ("stream", "stream_ref") or not (b.trait or "").startswith(("sval::value::Value", "sval_ref::ValueRef")):
+            if not any("sval::stream::Stream" in (c.callee.get("trait") or "") and (c.callee.get("name") or "").endswith(("_begin", "_end")) for c in b.calls(normal_only=True)):
                 continue
+            if re.search(r"AnyStream<S> as sval::stream::Stream|AnyStream::<S>::any_value_(begin|end)$|Extract<", k):
+                continue   # bridges: a frame is opened in one method and closed in another (checked as method groups above)
             n += 1
             for p in success_paths(b, False)[:200]:
-                t = []
-                for bb in p:
-                    tm = b.blocks[bb]["term"]
-                    if tm["k"] != "call":
-                        continue
-                    c = mir.CallSite(b, bb, tm)
-                    if not c.args:
-                        continue
-                    r = mir.o_root(b.origin(c.args[0], through_calls=("deref_mut", "deref")))
-                    if mir.o_is_param(r, idx=2) or mir.o_field_path(b.origin(c.args[0]))[1][-1:] == ["stream"]:
-                        t.append((c.callee.get("name"), _label_of(b, c, None), c))
-                d = balanced(t, vals)
+                t = _stream_tokens(b, p)
+                d = balanced(t, vals) or _empty_frame(t)
                 if d:
-                    return False, "%s: %s - the payload it writes would not decode / parse" % (k, d), [], b.span
+                    return False, "%s: %s - the record / payload it writes would not parse or decode" % (k, d), [], b.span
+            for s_, h in b.back_edges():
+                body = b.loop_body(h)
+                for p in _success_subpaths(b, h, s_, body)[:100]:
+                    t = _stream_tokens(b, p)
+                    d = balanced(t, vals) or _empty_frame(t)
+                    if d:
+                        return False, "%s, in one iteration of its loop: %s" % (k, d), [], b.span
         if n < 45:
-            raise mir.AnchorMissing("sval::Value impls in the OTLP data code (found %d)" % n)
-        return True, "", ["%d Value impls, all success paths well-nested" % n]
-    chk.ob(key, "every sval::Value impl of the OTLP data code writes well-nested frames under matching labels", f)
+            raise mir.AnchorMissing("frame-writing functions in the OTLP data code and the file writer (found %d)" % n)
+        return True, "", ["%d frame-writing bodies: success paths and loop iterations well-nested, no empty element frames" % n]
+    chk.ob(key, "every frame-writing function of the OTLP data code and the file writer is well-nested, per path and per loop iteration, with a value in every element frame", f)
